@@ -29,6 +29,10 @@ TOPOLOGIES = {
     # trough -> two-ball launcher -> playfield (the source may have to wait for the target's own eject to finish)
     "t8": {"machine": "balls_t8", "trough": "bd_trough", "trough_switches": ["s_trough1", "s_trough2", "s_trough3", "s_trough4"],
            "pf_switches": ["s_pf1", "s_pf2"], "locks": [], "manual": []},
+    # Gottlieb style: outhole -> trough counted at its entrance (the last ball rests on the entrance switch and is
+    # counted after entrance_switch_full_timeout) -> plunger lane
+    "t9": {"machine": "balls_t9", "trough": "bd_trough", "drain": "bd_outhole", "trough_switches": ["s_trough_entry"],
+           "pf_switches": ["s_pf1", "s_pf2"], "locks": [], "manual": [], "nballs": 3},
     # two independent feeds (trough+plunger each) into one playfield
     "t6": {"machine": "balls_t6", "trough": "bd_trough", "trough_b": "bd_trough_b", "plunger_b": "bd_plunger_b",
            "trough_switches": ["s_trough1", "s_trough2", "s_troughb1", "s_troughb2"],
@@ -57,8 +61,9 @@ def plan(ch, tier):
     # seconds; a host that freezes for longer than those is a fault the property does not ask MPF to survive
     knobs["max_stall_index"] = min(knobs["max_stall_index"], 4)
     avail = [k for k, t in TOPOLOGIES.items() if os.path.isdir(os.path.join(VERIF, "machines", t["machine"]))]
-    topo = ch.pick("topo", avail)
+    topo = ch.weighted("topo", [(k, 2 if k == "t9" else 1) for k in avail])
     nb = ch.pick("nballs", [3, 2, 4, 1])
+    nb = TOPOLOGIES[topo].get("nballs", nb)
     wk = {"p_eject_fail": ch.pick("p_eject_fail", [0.0, 0.0, 0.1, 0.3])}
     ops = []
     n = 3 + ch.choice("nops", 16)
@@ -69,6 +74,9 @@ def plan(ch, tier):
     if TOPOLOGIES[topo]["manual"]:
         kinds += [("plunge", 5)]
     bs_mode = topo == "t5" and ch.flag("bs_mode", 0.4)
+    if topo == "t9":
+        # two balls draining right after each other, and requests while the last ball rests on the trough's entrance
+        kinds += [("double_drain", 4), ("add_ball", 4), ("pair_request", 6)]
     if topo == "t5":
         # ball save: several balls in play and drains close together (inside the save's eject delay)
         kinds += [("double_drain", 5), ("add_ball", 4)]
@@ -105,7 +113,9 @@ def plan(ch, tier):
         ops[0]["op"] = ch.pick("lane_first_op", ["plunge", "wait"])
         ops[0]["dt"] = ch.pick("lane_first_dt", [5.0, 0.5, 12.0])
     return {"knobs": knobs, "world": wk, "topo": topo, "nballs": nb, "ops": ops, "patches": patches, "react": react,
-            "hold": hold, "lane_ball": lane_ball, "oversub": oversub, "bs_mode": bs_mode}
+            "hold": hold, "lane_ball": lane_ball, "oversub": oversub, "bs_mode": bs_mode,
+            # a mode that starts the multiball when the lock kicks a ball out (e.g. a scoop award)
+            "mb_on_lock_eject": topo == "t2" and ch.flag("mb_on_lock_eject", 0.4)}
 
 
 def execute(ctx, plan, prop):
@@ -244,6 +254,17 @@ def execute(ctx, plan, prop):
             sim.after(hold["secs"] if in_workload[0] else 0.0, queue.clear)
         m.events.add_handler("balldevice_%s_ball_eject_attempt" % topo["trough"], hold_attempt)
 
+    if plan.get("mb_on_lock_eject"):
+        mb_left = [2]
+
+        def lock_ejecting(**kwargs):
+            if in_workload[0] and m.game is not None and mb_left[0] > 0 and can_add():
+                mb_left[0] -= 1
+                ctx.probe("multiball_start_during_lock_eject")
+                ctx.probe("multiball_start")
+                m.events.post("mb_start")
+        m.events.add_handler("balldevice_%s_ejecting_ball" % topo["locks"][0], lock_ejecting)
+
     def can_add(n=1):
         """A further ball may be requested only while the machine has one to give: the workload keeps the game's
         balls_in_play in step with its requests, which is only meaningful without over-subscription."""
@@ -256,6 +277,7 @@ def execute(ctx, plan, prop):
 
     # ---- workload -------------------------------------------------------------------------------------
     games = [0]
+    drain_dev = topo.get("drain", topo["trough"])
     for op in plan["ops"]:
         if op["dt"]:
             sim.run(op["dt"])
@@ -269,16 +291,28 @@ def execute(ctx, plan, prop):
             sim.run(0.05)
             sim.hit_switch("s_start", 0)
         elif k == "drain":
-            if world.loose_ball_into(topo["trough"], op["pick"]):
+            if world.loose_ball_into(drain_dev, op["pick"]):
                 ctx.probe("drain")
                 world.last_drain_t = sim.now
         elif k == "double_drain":
-            if world.loose_ball_into(topo["trough"], op["pick"]):
+            if world.loose_ball_into(drain_dev, op["pick"]):
                 ctx.probe("drain")
                 world.last_drain_t = sim.now
                 sim.run([0.4, 0.9, 1.5][op["pick"] % 3])
-                if world.loose_ball_into(topo["trough"], op["pick"]):
+                if world.loose_ball_into(drain_dev, op["pick"]):
                     ctx.probe("double_drain")
+        elif k == "pair_request":
+            # two balls drain right after each other; a ball is requested while the second one comes to rest
+            if world.loose_ball_into(drain_dev, op["pick"]):
+                ctx.probe("drain")
+                sim.run([0.4, 0.9, 1.5][op["pick"] % 3])
+                if world.loose_ball_into(drain_dev, op["pick"]):
+                    ctx.probe("double_drain")
+                sim.run([1.2, 2.0, 0.6][int(op["dt"] * 10) % 3])
+                if can_add():
+                    ctx.probe("request_while_last_ball_settles")
+                    pf.add_ball()
+                    m.game.balls_in_play += 1
         elif k == "drain_b":
             if world.loose_ball_into(topo["trough_b"], op["pick"]):
                 ctx.probe("drain")
